@@ -80,9 +80,9 @@ unsigned DenseMatrix::rank() const
 bool DenseMatrix::is_lower() const
 {
     auto A = *this;
-    unsigned n = A.nrows();
+    unsigned n = A.nrows(), m = A.ncols();
     for (unsigned i = 1; i < n; ++i) {
-        for (unsigned j = 0; j < i; ++j) {
+        for (unsigned j = 0; j < i and j < m; ++j) {
             if (not is_number_and_zero(*A.get(i, j))) {
                 return false;
             }
@@ -94,9 +94,9 @@ bool DenseMatrix::is_lower() const
 bool DenseMatrix::is_upper() const
 {
     auto A = *this;
-    unsigned n = A.nrows();
-    for (unsigned i = 0; i < n - 1; ++i) {
-        for (unsigned j = i + 1; j < n; ++j) {
+    unsigned n = A.nrows(), m = A.ncols();
+    for (unsigned i = 0; i < n; ++i) {
+        for (unsigned j = i + 1; j < m; ++j) {
             if (not is_number_and_zero(*A.get(i, j))) {
                 return false;
             }
